@@ -155,7 +155,7 @@ impl ToTokens for DataMatchArm<'_> {
             tokens.append_all(quote!(
                 #name_in_attr => {
                     if let ::darling::export::syn::Meta::List(ref __data) = *__nested {
-                        let __items = ::darling::export::NestedMeta::parse_meta_list(__data.tokens.clone())?;
+                        let __items = ::darling::export::NestedMeta::parse_meta_list_of(__data)?;
                         let __items = &__items;
 
                         #declare_errors
